@@ -34,6 +34,11 @@ typedef	__int128 asn1c_integer_t;
 typedef	intmax_t asn1c_integer_t;
 #endif
 
+#define ASN_INTEGER_MAX    \
+    (~((asn1c_integer_t)0) \
+     & ~((asn1c_integer_t)1 << (8 * sizeof(asn1c_integer_t) - 1)))
+#define ASN_INTEGER_MIN (-(ASN_INTEGER_MAX)-1)
+
 int asn1p_atoi(const char *ptr, asn1c_integer_t *r_value);
 const char *asn1p_itoa(asn1c_integer_t value);   /* Ptr to a static buf */
 /*
